@@ -1152,46 +1152,16 @@ func checkRPMChangelogText(c *Ctx, r *Report, pk *Packager) {
 			if ec, ok := call.Call.Args[2].(*ssa.Call); ok && len(ec.Call.Args) == 1 {
 				list = ec.Call.Args[0]
 			}
-			ms, _ := list.(*ssa.MakeSlice)
-			if ms == nil {
-				r.Fail("F5b-text", "rpm changelog text is the rendered notes", c.instrPos(call), "the list stored under tag 1082 is not a locally built slice: not decided")
+			elems, okList := listElements(list, 0)
+			if !okList || len(elems) == 0 {
+				r.Fail("F5b-text", "rpm changelog text is the rendered notes", c.instrPos(call), "the list stored under tag 1082 is not a locally built slice (index stores or appends): not decided")
 				return
 			}
-			for _, ref := range *ms.Referrers() {
-				ia, ok := ref.(*ssa.IndexAddr)
-				if !ok {
-					continue
-				}
-				for _, r2 := range *ia.Referrers() {
-					st, ok := r2.(*ssa.Store)
-					if !ok || st.Addr != ssa.Value(ia) {
-						continue
-					}
-					n++
-					v := st.Val
-					var bad string
-					for i := 0; i < 8 && bad == ""; i++ {
-						cv, ok := v.(*ssa.Call)
-						if !ok {
-							break
-						}
-						o := calleeObj(cv)
-						if o == nil {
-							bad = "a dynamic call"
-							break
-						}
-						if o.Name() == "String" && o.Type().(*types.Signature).Recv() != nil {
-							break // the rendering buffer
-						}
-						if !allowed[qualifiedName(o)] || len(cv.Call.Args) == 0 {
-							bad = funcObjName(o)
-							break
-						}
-						v = cv.Call.Args[0]
-					}
-					r.Check(bad == "", "F5b-text", fmt.Sprintf("rpm changelog text#%d is the rendered notes", n), c.instrPos(st),
-						"between the rendered notes and the changelog-text tag only strings.TrimSpace is expected; found "+bad+": the stored text would differ from the configured changelog")
-				}
+			for _, el := range elems {
+				n++
+				bad := textChainBad(c, el, allowed, 0)
+				r.Check(bad == "", "F5b-text", fmt.Sprintf("rpm changelog text#%d is the rendered notes", n), c.instrPos(call),
+					"between the rendered notes and the changelog-text tag only strings.TrimSpace is expected; found "+bad+": the stored text would differ from the configured changelog")
 			}
 		})
 	}
@@ -1304,4 +1274,124 @@ func checkParsedComponents(c *Ctx, r *Report, pa *provAnalysis) {
 		}
 	}
 	r.Floor("F6-parsed", n, 3)
+}
+
+// listElements: the values put into a locally built slice - by index stores
+// into a make([]T, n) or by append (also as a loop-carried variable).
+func listElements(v ssa.Value, depth int) ([]ssa.Value, bool) {
+	seen := map[ssa.Value]bool{}
+	var out []ssa.Value
+	ok := true
+	var walk func(v ssa.Value, d int)
+	walk = func(v ssa.Value, d int) {
+		if v == nil || seen[v] || d > 12 {
+			return
+		}
+		seen[v] = true
+		switch x := v.(type) {
+		case *ssa.MakeSlice:
+			for _, ref := range *x.Referrers() {
+				if ia, isIA := ref.(*ssa.IndexAddr); isIA {
+					for _, r2 := range *ia.Referrers() {
+						if st, isSt := r2.(*ssa.Store); isSt && st.Addr == ssa.Value(ia) {
+							out = append(out, st.Val)
+						}
+					}
+				}
+			}
+		case *ssa.Phi:
+			for _, e := range x.Edges {
+				walk(e, d+1)
+			}
+		case *ssa.Const:
+		case *ssa.Call:
+			b, isB := x.Call.Value.(*ssa.Builtin)
+			if !isB || b.Name() != "append" {
+				ok = false
+				return
+			}
+			walk(x.Call.Args[0], d+1)
+			out = append(out, variadicElems(x.Call.Args[1])...)
+		case *ssa.Slice:
+			walk(x.X, d+1)
+		case *ssa.Alloc:
+			// backing array of a literal
+			for _, ref := range *x.Referrers() {
+				if ia, isIA := ref.(*ssa.IndexAddr); isIA {
+					for _, r2 := range *ia.Referrers() {
+						if st, isSt := r2.(*ssa.Store); isSt && st.Addr == ssa.Value(ia) {
+							out = append(out, st.Val)
+						}
+					}
+				}
+			}
+		default:
+			ok = false
+		}
+	}
+	walk(v, depth)
+	return out, ok
+}
+
+// textChainBad follows a string value back through the allowed unary string
+// functions and through module helpers to the String() of its rendering
+// buffer; it returns the first call that is neither ("" when clean).
+func textChainBad(c *Ctx, v ssa.Value, allowed map[string]bool, depth int) string {
+	for i := 0; i < 8; i++ {
+		switch x := v.(type) {
+		case *ssa.Extract:
+			call, ok := x.Tuple.(*ssa.Call)
+			if !ok {
+				return "an unrecognised value"
+			}
+			sc := call.Call.StaticCallee()
+			if sc == nil || sc.Blocks == nil || !c.isModuleFunc(sc) || depth > 3 {
+				return calleeName(call)
+			}
+			for _, b := range sc.Blocks {
+				ret, ok := b.Instrs[len(b.Instrs)-1].(*ssa.Return)
+				if !ok {
+					continue
+				}
+				res := retResults(ret)
+				if x.Index >= len(res) {
+					continue
+				}
+				if k, isK := res[x.Index].(*ssa.Const); isK {
+					_ = k
+					continue // the failure return's zero value
+				}
+				if bad := textChainBad(c, res[x.Index], allowed, depth+1); bad != "" {
+					return bad
+				}
+			}
+			return ""
+		case *ssa.Call:
+			o := calleeObj(x)
+			if o == nil {
+				return "a dynamic call"
+			}
+			if o.Name() == "String" && o.Type().(*types.Signature).Recv() != nil {
+				return "" // the rendering buffer
+			}
+			if allowed[qualifiedName(o)] && len(x.Call.Args) > 0 {
+				v = x.Call.Args[0]
+				continue
+			}
+			if sc := x.Call.StaticCallee(); sc != nil && sc.Blocks != nil && c.isModuleFunc(sc) && depth <= 3 && sc.Signature.Results().Len() == 1 {
+				for _, b := range sc.Blocks {
+					if ret, ok := b.Instrs[len(b.Instrs)-1].(*ssa.Return); ok {
+						if bad := textChainBad(c, retResults(ret)[0], allowed, depth+1); bad != "" {
+							return bad
+						}
+					}
+				}
+				return ""
+			}
+			return funcObjName(o)
+		default:
+			return "an unrecognised value"
+		}
+	}
+	return "a chain too long to decide"
 }
